@@ -14,32 +14,32 @@ import (
 )
 
 type Options struct {
-	OpType      ast.Operation
-	MaxDepth    int
-	MaxRoot     int
-	Aliases     bool
-	Fragments   bool
-	Variables   bool
-	VarDefaults bool
-	Directives  bool
-	DirVars     bool // variables used only inside directives
-	DupKeys     bool // same response key selected twice (mergeable)
+	OpType       ast.Operation
+	MaxDepth     int
+	MaxRoot      int
+	Aliases      bool
+	Fragments    bool
+	Variables    bool
+	VarDefaults  bool
+	Directives   bool
+	DirVars      bool // variables used only inside directives
+	DupKeys      bool // same response key selected twice (mergeable)
 	DupComposite bool // same composite response key twice with different sub-selections
 	AliasSibling bool // alias equal to the name of another field in scope
-	Typename    bool
-	NodeRoot    bool
+	Typename     bool
+	NodeRoot     bool
 	RootTypename bool
-	VarNamedID  bool
-	MultiOp     bool
-	OpName      bool
+	VarNamedID   bool
+	MultiOp      bool
+	OpName       bool
 	// IDs usable for node(id:) roots
 	IDs []string
-	// Closed gates are counted through this callback
-	Excluded func(gate string)
+	// Avoid: feature classes (names of package feat) the generator must not produce (closed gates)
+	Avoid map[string]bool
 }
 
 func DefaultOptions() Options {
-	return Options{OpType: ast.Query, MaxDepth: 4, MaxRoot: 3, Aliases: true, Fragments: true, Variables: true, VarDefaults: true,
+	return Options{OpType: ast.Query, MaxDepth: 3, MaxRoot: 3, Aliases: true, Fragments: true, Variables: true, VarDefaults: true,
 		Directives: true, DirVars: true, DupKeys: true, DupComposite: true, AliasSibling: true, Typename: true, NodeRoot: true,
 		RootTypename: false, VarNamedID: true, MultiOp: true, OpName: true}
 }
@@ -57,16 +57,18 @@ type varDef struct {
 	def      string
 	value    interface{}
 	hasValue bool
+	pos      string
 }
 
 type gen struct {
-	t      *rapid.T
-	s      *ast.Schema
-	o      Options
-	vars   []*varDef
-	frags  []string
-	nfrag  int
-	labels map[string]bool
+	t                    *rapid.T
+	s                    *ast.Schema
+	o                    Options
+	vars                 []*varDef
+	frags                []string
+	nfrag                int
+	labels               map[string]bool
+	leafOnly, noTypename int
 }
 
 func (g *gen) pick(n int, label string) int {
@@ -83,7 +85,11 @@ func (g *gen) chance(pct int, label string) bool {
 func (g *gen) label(l string) { g.labels[l] = true }
 
 type scope struct {
-	keys map[string]string // response key -> signature
+	noHelpers bool // closed gates: no id/__typename in a scope with type-conditioned fragments
+	dirKeys   map[string]bool
+	fragKeys  map[string]bool // keys first selected inside a fragment
+	inFrag    int
+	keys      map[string]string // response key -> signature
 	// names of fields selected in this scope (for AliasSibling)
 	names []string
 }
@@ -198,18 +204,16 @@ func (g *gen) rootSelection(root *ast.Definition) string {
 			parts = append(parts, s)
 		}
 	}
-	if nodeField != nil && g.o.NodeRoot && len(g.o.IDs) > 0 && g.chance(15, "noderoot") {
+	if nodeField != nil && g.o.NodeRoot && !g.o.Avoid["op.nodeRoot"] && len(g.o.IDs) > 0 && g.chance(15, "noderoot") {
 		if s := g.nodeRoot(sc); s != "" {
 			parts = append(parts, s)
 			g.label("nodeRoot")
 		}
 	}
 	if g.chance(4, "roottn") {
-		if g.o.RootTypename {
+		if g.o.RootTypename && !g.o.Avoid["op.rootTypename"] {
 			parts = append(parts, "__typename")
 			g.label("rootTypename")
-		} else if g.o.Excluded != nil {
-			g.o.Excluded("op.rootTypename")
 		}
 	}
 	if len(parts) == 0 {
@@ -235,13 +239,23 @@ func (g *gen) nodeRoot(sc *scope) string {
 	sort.Slice(members, func(i, j int) bool { return members[i].Name < members[j].Name })
 	inner := newScope()
 	var parts []string
-	if g.chance(50, "nodeid?") {
-		parts = append(parts, "id")
-		inner.keys["id"] = "id"
+	if !g.o.Avoid["op.nodeRootDirectField"] {
+		if g.chance(50, "nodeid?") {
+			parts = append(parts, "id")
+			inner.keys["id"] = "id"
+		}
+		if g.o.Typename && g.chance(40, "nodetn") {
+			parts = append(parts, "__typename")
+			inner.keys["__typename"] = "__typename"
+		}
 	}
-	if g.o.Typename && g.chance(40, "nodetn") {
-		parts = append(parts, "__typename")
-		inner.keys["__typename"] = "__typename"
+	if g.o.Avoid["op.nodeRootNestedSelection"] {
+		g.leafOnly++
+		defer func() { g.leafOnly-- }()
+	}
+	if g.o.Avoid["op.nodeRootFragmentTypename"] {
+		g.noTypename++
+		defer func() { g.noTypename-- }()
 	}
 	_ = nodeDef
 	for _, m := range members {
@@ -252,7 +266,7 @@ func (g *gen) nodeRoot(sc *scope) string {
 		}
 	}
 	if len(parts) == 0 {
-		parts = append(parts, "id")
+		return ""
 	}
 	s := ""
 	if alias != "" {
@@ -279,7 +293,30 @@ func (g *gen) selections(def *ast.Definition, depth int, sc *scope) string {
 	if def.Kind == ast.Union {
 		fields = nil
 	}
-	if g.o.Typename && (def.Kind != ast.Object && g.chance(40, "tn") || g.chance(8, "tn2")) {
+	// plan the fragments first: helper fields interact with them
+	abstract := def.Kind == ast.Interface || def.Kind == ast.Union
+	var fragTypes []*ast.Definition
+	selfInline, selfNoCond := false, false
+	if abstract {
+		pts := append([]*ast.Definition{}, g.s.PossibleTypes[def.Name]...)
+		sort.Slice(pts, func(i, j int) bool { return pts[i].Name < pts[j].Name })
+		for _, pt := range pts {
+			if g.chance(55, "ptfrag") {
+				fragTypes = append(fragTypes, pt)
+			}
+		}
+	} else if g.o.Fragments && depth <= g.o.MaxDepth && g.chance(12, "selfinline") {
+		selfInline = true
+		selfNoCond = g.chance(50, "nocond")
+	}
+	avoidHelpers := g.o.Avoid["op.helperLostToFragmentScrub"] || g.o.Avoid["op.helperOnlyInsideSubtypeFragment"]
+	if avoidHelpers && (len(fragTypes) > 0 || selfInline && !selfNoCond) {
+		sc.noHelpers = true
+	}
+	if sc.inFrag > 0 && abstract && g.o.Avoid["op.abstractScopeNestedFragments"] {
+		fragTypes = nil
+	}
+	if g.o.Typename && g.noTypename == 0 && !sc.noHelpers && (abstract && g.chance(40, "tn") || g.chance(8, "tn2")) {
 		if _, ok := sc.keys["__typename"]; !ok {
 			sc.keys["__typename"] = "__typename"
 			parts = append(parts, "__typename")
@@ -287,9 +324,21 @@ func (g *gen) selections(def *ast.Definition, depth int, sc *scope) string {
 	}
 	if len(fields) > 0 {
 		n := 1 + g.pick(3, "nsel")
+		var comps []*ast.FieldDefinition
+		for _, f := range fields {
+			if !isLeaf(g.s, f.Type) {
+				comps = append(comps, f)
+			}
+		}
 		for i := 0; i < n; i++ {
 			f := fields[g.pick(len(fields), "selfield")]
-			if depth >= g.o.MaxDepth && !isLeaf(g.s, f.Type) {
+			if len(comps) > 0 && depth < g.o.MaxDepth && g.leafOnly == 0 && g.chance(35, "prefercomp") {
+				f = comps[g.pick(len(comps), "compfield")]
+			}
+			if (depth >= g.o.MaxDepth || g.leafOnly > 0) && !isLeaf(g.s, f.Type) {
+				continue
+			}
+			if (g.leafOnly > 0 || sc.noHelpers) && f.Name == "id" {
 				continue
 			}
 			if s := g.field(def, f, depth+1, sc); s != "" {
@@ -297,34 +346,32 @@ func (g *gen) selections(def *ast.Definition, depth int, sc *scope) string {
 			}
 		}
 	}
-	if def.Kind == ast.Interface || def.Kind == ast.Union {
-		pts := append([]*ast.Definition{}, g.s.PossibleTypes[def.Name]...)
-		sort.Slice(pts, func(i, j int) bool { return pts[i].Name < pts[j].Name })
-		for _, pt := range pts {
-			if g.chance(55, "ptfrag") {
-				parts = append(parts, g.fragmentOn(pt, depth, sc))
-			}
-		}
-	} else if g.o.Fragments && g.chance(12, "selfinline") {
-		// inline fragment without / with own type condition
-		if g.chance(50, "nocond") {
-			parts = append(parts, "... "+g.dirs()+g.selectionSet(def, depth, sc))
+	for _, pt := range fragTypes {
+		parts = append(parts, g.fragmentOn(pt, depth, sc))
+	}
+	if selfInline {
+		if selfNoCond {
+			sc.inFrag++
+			parts = append(parts, "... "+g.fragDirs()+g.selectionSet(def, depth+1, sc))
+			sc.inFrag--
 			g.label("inlineNoCond")
 		} else {
-			parts = append(parts, g.fragmentOn(def, depth, sc))
+			parts = append(parts, g.fragmentOn(def, depth+1, sc))
 		}
 	}
 	if len(parts) == 0 {
 		// something must be selected
-		if len(fields) > 0 {
-			for _, f := range fields {
-				if isLeaf(g.s, f.Type) && !hasRequiredArgs(f) {
-					if _, ok := sc.keys[f.Name]; !ok {
-						sc.keys[f.Name] = sigOf(f, "")
-						return f.Name
-					}
+		for _, f := range fields {
+			if isLeaf(g.s, f.Type) && !hasRequiredArgs(f) && !(sc.noHelpers && f.Name == "id") {
+				if _, ok := sc.keys[f.Name]; !ok {
+					sc.keys[f.Name] = sigOf(f, "")
+					sc.names = append(sc.names, f.Name)
+					return f.Name
 				}
 			}
+		}
+		if g.noTypename > 0 {
+			return "id"
 		}
 		if _, ok := sc.keys["__typename"]; !ok {
 			sc.keys["__typename"] = "__typename"
@@ -343,17 +390,30 @@ func hasRequiredArgs(f *ast.FieldDefinition) bool {
 	return false
 }
 
+func (g *gen) fragDirs() string {
+	if g.o.Avoid["op.directiveOnFragment"] {
+		return ""
+	}
+	return g.dirs()
+}
+
 func (g *gen) fragmentOn(def *ast.Definition, depth int, sc *scope) string {
 	g.label("fragments")
+	sc.inFrag++
+	defer func() { sc.inFrag-- }()
 	if g.o.Fragments && g.chance(35, "named") {
 		g.nfrag++
 		name := fmt.Sprintf("F%d", g.nfrag)
 		body := g.selectionSet(def, depth, sc)
 		g.frags = append(g.frags, "fragment "+name+" on "+def.Name+" "+body)
 		g.label("namedFragment")
-		return "..." + name + g.dirsSp()
+		d := strings.TrimSpace(g.fragDirs())
+		if d != "" {
+			d = " " + d
+		}
+		return "..." + name + d
 	}
-	return "... on " + def.Name + " " + g.dirs() + g.selectionSet(def, depth, sc)
+	return "... on " + def.Name + " " + g.fragDirs() + g.selectionSet(def, depth, sc)
 }
 
 func (g *gen) dirsSp() string {
@@ -365,7 +425,7 @@ func (g *gen) dirsSp() string {
 }
 
 func (g *gen) dirs() string {
-	if !g.o.Directives || !g.chance(10, "dir") {
+	if !g.o.Directives || !g.chance(4, "dir") {
 		return ""
 	}
 	g.label("directives")
@@ -374,11 +434,7 @@ func (g *gen) dirs() string {
 		name = "skip"
 	}
 	if g.o.Variables && g.chance(50, "dirvar") {
-		if !g.o.DirVars {
-			if g.o.Excluded != nil {
-				g.o.Excluded("op.directiveVariables")
-			}
-		} else {
+		if g.o.DirVars && !g.o.Avoid["op.directiveVariables"] {
 			v := g.variableFor("Boolean!", &ast.Type{NamedType: "Boolean", NonNull: true})
 			g.label("directiveVariables")
 			return "@" + name + "(if: $" + v.name + ") "
@@ -396,6 +452,15 @@ func sigOf(f *ast.FieldDefinition, args string) string {
 }
 
 func (g *gen) field(parent *ast.Definition, f *ast.FieldDefinition, depth int, sc *scope) string {
+	nvars := len(g.vars)
+	s := g.field0(parent, f, depth, sc)
+	if s == "" && len(g.vars) > nvars {
+		g.vars = g.vars[:nvars] // variables created for a dropped field would be unused
+	}
+	return s
+}
+
+func (g *gen) field0(parent *ast.Definition, f *ast.FieldDefinition, depth int, sc *scope) string {
 	args := g.arguments(f)
 	if args == "!" {
 		return ""
@@ -403,16 +468,24 @@ func (g *gen) field(parent *ast.Definition, f *ast.FieldDefinition, depth int, s
 	sig := sigOf(f, args)
 	key := f.Name
 	alias := ""
-	if g.o.Aliases && g.chance(20, "alias") {
+	helper := f.Name == "id"
+	if g.o.Avoid["op.aliasEqualsSiblingName"] {
+		for _, n := range sc.names {
+			if n == f.Name {
+				if _, used := sc.keys[f.Name]; !used || sc.keys[f.Name] != sig || !isLeaf(g.s, f.Type) {
+					return ""
+				}
+			}
+		}
+	}
+	if g.o.Aliases && g.chance(20, "alias") && !(helper && g.o.Avoid["op.idAliased"]) {
 		alias = fmt.Sprintf("%s%d", []string{"a", "x", "al"}[g.pick(3, "aln")], len(sc.keys))
 		if len(sc.names) > 0 && g.chance(25, "aliasSibling") {
 			cand := sc.names[g.pick(len(sc.names), "sib")]
 			if cand != f.Name {
-				if g.o.AliasSibling {
+				if g.o.AliasSibling && !g.o.Avoid["op.aliasEqualsSiblingName"] && (cand != "id" && cand != "__typename" && cand != "node" || !g.o.Avoid["op.aliasIsHelperName"]) {
 					alias = cand
 					g.label("aliasEqualsSiblingName")
-				} else if g.o.Excluded != nil {
-					g.o.Excluded("op.aliasEqualsSiblingName")
 				}
 			}
 		}
@@ -428,23 +501,25 @@ func (g *gen) field(parent *ast.Definition, f *ast.FieldDefinition, depth int, s
 			if _, u2 := sc.keys[key]; u2 {
 				return ""
 			}
+		} else if g.o.Avoid["op.duplicateKeyDifferentConditions"] {
+			return ""
 		} else if leaf {
 			if !g.o.DupKeys {
-				if g.o.Excluded != nil {
-					g.o.Excluded("op.duplicateResponseKey")
-				}
 				return ""
 			}
 			g.label("dupLeafKey")
 		} else {
-			if !g.o.DupComposite {
-				if g.o.Excluded != nil {
-					g.o.Excluded("op.duplicateCompositeKey")
-				}
+			if !g.o.DupComposite || g.o.Avoid["op.duplicateCompositeKey"] {
 				return ""
 			}
 			g.label("dupCompositeKey")
 		}
+	}
+	if _, used := sc.keys[key]; !used && sc.inFrag > 0 {
+		if sc.fragKeys == nil {
+			sc.fragKeys = map[string]bool{}
+		}
+		sc.fragKeys[key] = true
 	}
 	sc.keys[key] = sig
 	sc.names = append(sc.names, f.Name)
@@ -457,8 +532,14 @@ func (g *gen) field(parent *ast.Definition, f *ast.FieldDefinition, depth int, s
 		b.WriteString("(" + args + ")")
 		g.label("arguments")
 	}
-	if d := g.dirs(); d != "" {
-		b.WriteString(" " + strings.TrimSpace(d))
+	if !(helper && g.o.Avoid["op.helperFieldConditional"]) {
+		if d := g.dirs(); d != "" {
+			b.WriteString(" " + strings.TrimSpace(d))
+			if sc.dirKeys == nil {
+				sc.dirKeys = map[string]bool{}
+			}
+			sc.dirKeys[key] = true
+		}
 	}
 	if !leaf {
 		def := g.s.Types[f.Type.Name()]
@@ -507,7 +588,7 @@ func (g *gen) variableFor(typeStr string, posType *ast.Type) *varDef {
 	// reuse
 	if g.chance(25, "reusevar") {
 		for _, v := range g.vars {
-			if v.typ == typeStr {
+			if v.typ == typeStr && (v.pos == posType.String() || !g.o.Avoid["op.variablePositionsDiffer"]) {
 				g.label("variableReused")
 				return v
 			}
@@ -515,7 +596,7 @@ func (g *gen) variableFor(typeStr string, posType *ast.Type) *varDef {
 	}
 	name := fmt.Sprintf("v%d", len(g.vars))
 	if g.chance(6, "varid") {
-		if g.o.VarNamedID {
+		if g.o.VarNamedID && !g.o.Avoid["op.variableNamedId"] {
 			taken := false
 			for _, v := range g.vars {
 				if v.name == "id" {
@@ -526,11 +607,9 @@ func (g *gen) variableFor(typeStr string, posType *ast.Type) *varDef {
 				name = "id"
 				g.label("variableNamedId")
 			}
-		} else if g.o.Excluded != nil {
-			g.o.Excluded("op.variableNamedId")
 		}
 	}
-	v := &varDef{name: name, typ: typeStr}
+	v := &varDef{name: name, typ: typeStr, pos: posType.String()}
 	nonNull := strings.HasSuffix(typeStr, "!")
 	vt := *posType
 	vt.NonNull = nonNull
@@ -538,12 +617,10 @@ func (g *gen) variableFor(typeStr string, posType *ast.Type) *varDef {
 		if g.o.VarDefaults {
 			v.def = g.literalNoVar(&vt, 0, true)
 			g.label("varDefaults")
-		} else if g.o.Excluded != nil {
-			g.o.Excluded("op.variableDefaults")
 		}
 	}
 	// value: required when non-null without default
-	mustHave := nonNull && v.def == ""
+	mustHave := nonNull && v.def == "" || v.def != "" && g.o.Avoid["op.variableDefaults"]
 	if mustHave || g.chance(70, "hasvalue") {
 		v.hasValue = true
 		if !nonNull && g.chance(15, "nullvalue") {
